@@ -33,11 +33,16 @@ def build():
     u.assume('table facts transcribed from poseidon2-circuit-air/src/air.rs eval_interactions and ops/poseidon_perm/executor.rs: a given input limb is bus-read with multiplicity in_ctl*(1-merkle_path); '
              'mmcs_bit is only boolean-asserted and tied to a witness value only through mmcs_index_sum')
     u.assume('R13 slice: the no-path early return, the final output collection and the root connection of add_mmcs_verify are outside the slice; locals bound before the slice are parameters')
+    u.isolate_h = True      # direction_bit_tied(&call_) is plainly FALSE for these calls (mmcs_bit given, no index accumulator): a leaked failed assertion would discharge everything after it vacuously
     u.text(open(os.path.join(HERE, 'gadget_prelude.rs')).read())
     u.text('verus! {\nglobal size_of usize == 8;\n}')
     u.text(CHAL_STUBS)
     u.text(HASH_SPEC)
     u.text(SPEC)
+    u.text('''verus! {
+/// the levels below i that get an injection row in the native walk: every level after the first whose digest list is not empty (matrices of that height exist)
+pub open spec fn count_inj(s: Seq<Vec<ExprId>>, i: int) -> int decreases i { if i <= 0 { 0 } else { count_inj(s, i - 1) + (if i - 1 > 0 && s[i - 1]@.len() > 0 { 1int } else { 0int }) } }
+}''')
     M = 'circuit/src/ops/mmcs.rs'
     f = u.extract(M, r'impl<F: Field> CircuitBuilder<F>', 'add_mmcs_verify', 'CircuitBuilder::add_mmcs_verify[path_and_tail]')
     f.drop_prefix_before('let has_tail = openings_expr.len() > directions_expr.len()',
@@ -58,7 +63,10 @@ def build():
     f.requires('geometry', 'directions_expr@.len() > 0 && directions_expr@.len() <= openings_expr@.len() && width_ext == permutation_config.wext && rate_ext == permutation_config.rext '
                            '&& 2 * rate_ext <= width_ext && width_ext < 0x1_0000')
     f.loop('for i in 0..path_openings.len()', invariants=[
-        ('shape', 'path_openings@.len() == directions_expr@.len() && width_ext == permutation_config.wext && rate_ext == permutation_config.rext && 2 * rate_ext <= width_ext && width_ext < 0x1_0000 && directions_expr@.len() > 0')])
+        ('shape', 'path_openings@.len() == directions_expr@.len() && width_ext == permutation_config.wext && rate_ext == permutation_config.rext && 2 * rate_ext <= width_ext && width_ext < 0x1_0000 && directions_expr@.len() > 0'),
+        # C08 (round 19): native verify_batch folds the matrices of a height in at EVERY level, the last one below the root / cap included
+        ('every_level_after_the_first_with_a_digest_got_its_injection_row', 'n_inj == count_inj(path_openings@, i as int)')])
+    f.at_start('let ghost mut n_inj: int = 0;')
     # inner copy loops (3 of them: injected digest, first-row digest, tail): inputs keeps its length
     body = f.body
     n = len(re.findall(r'for j in 0\.\.min_\(', body))
@@ -79,7 +87,7 @@ def build():
         new_call = f.body[ls:op] + '&call_' + f.body[cl + 1:]
         pre = (f'let call_ = {lit};\nproof {{\n'
                f'    assert(some_given(&call_) ==> given_limbs_tied(&call_)); // @@A:H_{lab}_given_limbs_tied_to_the_row\n'
-               f'    assert(direction_bit_tied(&call_)); // @@A:H_{lab}_direction_bit_tied\n}}\n')
+               f'    assert(direction_bit_tied(&call_)); // @@A:H_{lab}_direction_bit_tied\n' + ('    n_inj = n_inj + 1;\n' if k == 0 else '') + '}\n')
         f.body = f.body[:ls] + pre + new_call
         f.rewrites.append(('SPEC-bind-arg', f'PermCall literal of the {lab} bound to a local before the call', ''))
     u.text('verus! {\nimpl<F: Field> CircuitBuilder<F> {')
